@@ -27,6 +27,7 @@ pub fn output_tokens_for_impl(
         for_token: _,
         self_ty,
         brace_token: _,
+        inner_attrs,
         items,
     }: InputImpl,
 ) -> syn::Result<proc_macro2::TokenStream> {
@@ -90,6 +91,7 @@ pub fn output_tokens_for_impl(
     Ok(quote! {
         #(#inherent_sub_attrs)*
         #unsafety #impl_token #self_ty {
+            #(#inner_attrs)*
             #(#items)*
         }
         #impl_block
